@@ -1801,7 +1801,7 @@ theorem mem_setInsert (l : List String) (x : String) : x ∈ setInsert l x := by
 theorem withDownload_spec {y : YModule} {d : Download} (hd : y.download = some d)
     (buildDir relpath : String) (m : Module) :
     (withDownload y buildDir relpath m).isBuildDep = true ∧
-    d.tagfile (d.srcdir buildDir relpath m.name) ∈ (withDownload y buildDir relpath m).buildDepFiles.getD [] ∧
+    d.tagfile (y.srcdir.getD (d.srcdir buildDir relpath m.name)) ∈ (withDownload y buildDir relpath m).buildDepFiles.getD [] ∧
     (withDownload y buildDir relpath m).download = some d ∧
     (withDownload y buildDir relpath m).name = m.name := by
   unfold withDownload
@@ -1814,7 +1814,7 @@ theorem static_tail_download {y : YModule} {d : Download} (hd : y.download = som
     let m := withEarlyEnv relpath (withSrcdir y buildDir relpath (withBuildFlags y
                (withDownload y buildDir relpath m0)))
     m.name = m0.name ∧ m.isBuildDep = true ∧ m.download = some d ∧
-    d.tagfile (d.srcdir buildDir relpath m0.name) ∈ m.buildDepFiles.getD [] ∧
+    d.tagfile (y.srcdir.getD (d.srcdir buildDir relpath m0.name)) ∈ m.buildDepFiles.getD [] ∧
     m.srcdir = some (y.srcdir.getD (d.srcdir buildDir relpath m0.name)) := by
   intro m
   obtain ⟨h1, h2, h3, h4⟩ := withDownload_spec hd buildDir relpath m0
@@ -1835,7 +1835,7 @@ theorem convertStatic_download {y : YModule} {d : Download} (hd : y.download = s
     (buildDir : String) (selA uses deps : List Dep) :
     let m := convertStatic y context isBinary filename defaults buildDir selA uses deps
     m.isBuildDep = true ∧ m.download = some d ∧
-    d.tagfile (d.srcdir buildDir (relpathOf filename) m.name) ∈ m.buildDepFiles.getD [] ∧
+    d.tagfile (y.srcdir.getD (d.srcdir buildDir (relpathOf filename) m.name)) ∈ m.buildDepFiles.getD [] ∧
     m.srcdir = some (y.srcdir.getD (d.srcdir buildDir (relpathOf filename) m.name)) := by
   intro m
   obtain ⟨h0, h1, h2, h3, h4⟩ := static_tail_download hd buildDir (relpathOf filename)
@@ -1852,52 +1852,50 @@ theorem convertStatic_download {y : YModule} {d : Download} (hd : y.download = s
 theorem convertModule_download {y context isBinary filename defaults buildDir} {m : Module} {d : Download}
     (h : convertModule y context isBinary filename defaults buildDir = .ok m) (hd : y.download = some d) :
     m.isBuildDep = true ∧ m.download = some d ∧
-    d.tagfile (d.srcdir buildDir (relpathOf filename) m.name) ∈ m.buildDepFiles.getD [] ∧
+    d.tagfile (y.srcdir.getD (d.srcdir buildDir (relpathOf filename) m.name)) ∈ m.buildDepFiles.getD [] ∧
     m.srcdir = some (y.srcdir.getD (d.srcdir buildDir (relpathOf filename) m.name)) := by
   obtain ⟨selA, uses, deps, hn, hb, hf, hdl, hs⟩ := convertModule_parts h
   obtain ⟨h1, h2, h3, h4⟩ := convertStatic_download hd context isBinary filename defaults buildDir selA uses deps
   rw [hn, hb, hf, hdl, hs]
   exact ⟨h1, h2, h3, h4⟩
 
-/-- without an explicit `srcdir:` the registered tag file is the one the download (or patch) statement
-    produces: it is the tag file of the module's source directory -/
+/-- the registered tag file is the one the download (or patch) statement produces: the tag file of the module's source directory,
+    with or without an explicit `srcdir:` -/
 theorem convertModule_download_tagfile {y context isBinary filename defaults buildDir} {m : Module}
     {d : Download}
-    (h : convertModule y context isBinary filename defaults buildDir = .ok m) (hd : y.download = some d)
-    (hs : y.srcdir = none) :
+    (h : convertModule y context isBinary filename defaults buildDir = .ok m) (hd : y.download = some d) :
     d.tagfile (m.srcdir.getD "") ∈ m.buildDepFiles.getD [] := by
   obtain ⟨_, _, h3, h4⟩ := convertModule_download h hd
-  rw [h4, hs]
+  rw [h4]
   exact h3
 
-/-! ### FINDING (C19-F2): `download:` together with an explicit `srcdir:`
+/-! ### (former FINDING C19-F2, fixed: 137176e) `download:` together with an explicit `srcdir:`
 
-The download statement writes its tag file into the module's *effective* source directory
-(`downloadBuild … (m.srcdir.getD "")`, as `download.rs` does with `module.srcdir`), but the tag file
-exported as a build-dep file is the one of the *default* download directory
-(`data.rs`: `download.srcdir(build_dir, &m)`), so with `srcdir:` given no statement produces the file
-every dependent (and the module's own sources) is made to depend on. -/
+The download statement writes its tag file into the module's *effective* source directory (`downloadBuild … (m.srcdir.getD "")`, as
+`download.rs` does with `module.srcdir`). Before the fix the tag file exported as a build-dep file was the one of the *default*
+download directory (`data.rs`: `download.srcdir(build_dir, &m)`), so with `srcdir:` given every dependent — and the module's own
+sources — waited for a file no statement produces (reported by C19's oracle `order:dep-file-without-producer` once the shape
+`download_with_srcdir` was generated). Now the exported file is the produced one: -/
 
-/-- the mismatch, in general: the exported tag file is the one of the default download directory,
-    the produced one (`downloadBuild`'s output) is the one of the given `srcdir:` -/
-theorem download_with_srcdir_mismatch {y context isBinary filename defaults buildDir} {m : Module}
-    {d : Download} {sd : String} (nr : NinjaRule) (vars : List (String × String))
+/-- exported = produced, for a plain download, whatever `srcdir:` says -/
+theorem download_with_srcdir_consistent {y context isBinary filename defaults buildDir} {m : Module}
+    {d : Download} (nr : NinjaRule) (vars : List (String × String))
     (h : convertModule y context isBinary filename defaults buildDir = .ok m) (hd : y.download = some d)
-    (hs : y.srcdir = some sd) :
-    d.tagfile (d.srcdir buildDir (relpathOf filename) m.name) ∈ m.buildDepFiles.getD [] ∧
-    (downloadBuild nr (m.srcdir.getD "") vars).outs = [Download.tagfileDownload sd] := by
-  obtain ⟨_, _, h3, h4⟩ := convertModule_download h hd
-  refine ⟨h3, ?_⟩
-  rw [h4, hs]
+    (hp : d.patches = none) :
+    (downloadBuild nr (m.srcdir.getD "") vars).outs = [d.tagfile (m.srcdir.getD "")] ∧
+    d.tagfile (m.srcdir.getD "") ∈ m.buildDepFiles.getD [] := by
+  refine ⟨?_, convertModule_download_tagfile h hd⟩
+  unfold Download.tagfile
+  rw [hp]
   rfl
 
--- concrete instance (evaluated): the exported file is not the produced one
+-- concrete instance (evaluated): the exported file is the produced one
 #guard
   let d : Download := { url := "u", commit := some "c" }
   let y : YModule := { name := some "dl", download := some d, srcdir := some "elsewhere" }
   match convertModule y none false "laze-project.yml" none "build" with
   | .ok m =>
-    m.buildDepFiles == some ["build/dl/./dl/.laze-downloaded"] &&
+    m.buildDepFiles == some ["elsewhere/.laze-downloaded"] &&
     (downloadBuild { name := "GIT_DOWNLOAD", command := "" } (m.srcdir.getD "") []).outs
       == ["elsewhere/.laze-downloaded"]
   | .error _ => false
